@@ -71,4 +71,2032 @@ mod c04 {
         kani::cover!(!enc && accepted && moved && h.plain.ctr < c1 && c1 - h.plain.ctr > 16, "unsecured session accepts a restart");
         kani::cover!(enc && accepted && moved && h.plain.ctr < c1, "in-window first-time counter on a secure session");
     }
+    /// `Session::post_recv` consults the session's receive window with the session's own
+    /// encryption status and WITHOUT roll-over arithmetic, and turns exactly a refusal into
+    /// `Err(Duplicate)`: the session-level result is the window step of property C04.
+    /// (Window states: `new(k)` optionally moved by one accepted counter - the fields of the window
+    /// are private to `dedup`, whose own harnesses cover every state.)
+    // TIER: quick   KIND: complete
+    #[kani::proof]
+    #[kani::stub(embassy_time::Instant::now, fake_now)]
+    fn c04_session_post_recv_is_window_step() {
+        let mut s = Session::new(1, kani::any(), false, Address::new(), None, 0, 0, 0);
+        s.mode = match kani::any::<u8>() % 4 {
+            0 => SessionMode::PlainText,
+            1 => SessionMode::Pase { fab_idx: kani::any() },
+            2 => SessionMode::Case { fab_idx: kani::any(), cat_ids: kani::any() },
+            _ => SessionMode::Group { fab_idx: kani::any(), group_id: kani::any() },
+        };
+        let enc = !matches!(s.mode, SessionMode::PlainText);
+        let k: u32 = kani::any();
+        let c1: u32 = kani::any();
+        let moved: bool = kani::any();
+        s.rx_ctr_state = RxCtrState::new(k);
+        let mut w = RxCtrState::new(k);
+        if moved {
+            let a = s.rx_ctr_state.post_recv(c1, enc, false);
+            let b = w.post_recv(c1, enc, false);
+            kani::assume(a && b);
+        }
+        let mut h = PacketHdr::new();
+        h.plain.ctr = kani::any();
+        h.proto.exch_id = kani::any();
+        if kani::any() {
+            h.proto.set_initiator();
+        }
+        h.proto.proto_opcode = kani::any();
+
+        let r = s.post_recv(&h);
+
+        let accepted = w.post_recv(h.plain.ctr, enc, false);
+        let dup = matches!(&r, Err(e) if e.code() == ErrorCode::Duplicate);
+        kani::assert(dup == !accepted, "C04.session.duplicate_iff_window_refuses");
+        // afterwards the session's window refuses that counter in any case
+        let again = s.rx_ctr_state.post_recv(h.plain.ctr, enc, false);
+        kani::assert(!again, "C04.session.counter_closed_afterwards");
+        kani::assert(!(enc && moved && h.plain.ctr < c1 && c1 - h.plain.ctr > 16) || dup, "C04.session.secure_refuses_older_than_window");
+        kani::cover!(enc && !accepted && moved && h.plain.ctr < c1 && c1 - h.plain.ctr > 16, "secure session refuses a counter older than the window");
+        kani::cover!(!enc && accepted && moved && h.plain.ctr < c1 && c1 - h.plain.ctr > 16, "unsecured session accepts a restart");
+        kani::cover!(enc && accepted && moved && h.plain.ctr < c1, "in-window first-time counter on a secure session");
+    }
+}
+
+mod c10 {
+    use super::*;
+    use crate::transport::exchange::{InitiatorState, ResponderState};
+    use crate::transport::mrp::AckEntry;
+
+    fn fake_now() -> Instant {
+        Instant::from_ticks(kani::any())
+    }
+
+    // (base interval, message counter, attempts made) / (counter to ack, sent) / received-at
+    pub(super) type RmParams = (Option<(u32, u32, u16)>, Option<(u32, bool)>, Option<u64>);
+    // exchange id, role selector, reliability state, reserved group counter
+    pub(super) type SlotParams = Option<(u16, u8, RmParams, Option<u32>)>;
+
+    pub(super) type RmObs = (Option<(u32, u64, u16)>, Option<(u32, bool)>, Option<u64>);
+    pub(super) type SlotObs = Option<(u16, Role, RmObs, Option<u32>)>;
+    pub(super) type TableObs = ([SlotObs; MAX_EXCHANGES], usize);
+
+    fn role_of(sel: u8) -> Role {
+        match sel % 5 {
+            0 => Role::Initiator(InitiatorState::Owned),
+            1 => Role::Initiator(InitiatorState::Dropped),
+            2 => Role::Responder(ResponderState::AcceptPending),
+            3 => Role::Responder(ResponderState::Owned),
+            _ => Role::Responder(ResponderState::Dropped),
+        }
+    }
+
+    /// The fields of `RetransEntry` are private to `mrp`. To build and read entries field by field
+    /// from here, a mirror struct with the same field list is transmuted to/from it (sizes are
+    /// checked by the compiler); that both have the same field layout in this build is itself
+    /// checked on concrete values through the public API in every harness that relies on it
+    /// (`layout_checked`, obligation `*.retrans_entry_layout_checked`).
+    #[derive(Clone, Copy)]
+    struct RetransMirror {
+        base_delay_interval_ms: u32,
+        msg_ctr: u32,
+        counter: u16,
+    }
+
+    fn mk_retrans(base: u32, ctr: u32, counter: u16) -> RetransEntry {
+        unsafe {
+            core::mem::transmute::<RetransMirror, RetransEntry>(RetransMirror {
+                base_delay_interval_ms: base,
+                msg_ctr: ctr,
+                counter,
+            })
+        }
+    }
+
+    /// (message counter, base interval, attempts made)
+    fn read_retrans(e: &RetransEntry) -> (u32, u64, u16) {
+        let m: RetransMirror = unsafe { core::mem::transmute_copy(e) };
+        (m.msg_ctr, m.base_delay_interval_ms as u64, m.counter)
+    }
+
+    pub(super) fn layout_checked() -> bool {
+        // mirror -> entry, observed through the public API
+        let mut e = mk_retrans(300, 0x2222_2222, 3);
+        let a = e.get_msg_ctr() == 0x2222_2222 && e.delay_ms_counter(0, 0) == 330;
+        let b = e.pre_send(0x2222_2222).is_ok() && e.pre_send(0x2222_2222).is_ok() && e.pre_send(0x2222_2222).is_err();
+        // entry -> mirror
+        let mut f = RetransEntry::new(Some(777), 42);
+        let c = read_retrans(&f) == (42, 777, 0);
+        let _ = f.pre_send(42);
+        let d = read_retrans(&f) == (42, 777, 1) && read_retrans(&e) == (0x2222_2222, 300, 5);
+        a && b && c && d
+    }
+
+    fn mk_rm(p: &RmParams) -> ReliableMessage {
+        ReliableMessage {
+            retrans: p.0.map(|(base, ctr, counter)| mk_retrans(base, ctr, counter)),
+            ack: p.1.map(|(m, a)| AckEntry {
+                msg_ctr: m,
+                acknowledged: a,
+            }),
+            received_at: p.2.map(Instant::from_ticks),
+        }
+    }
+
+    fn mk_slot(p: &SlotParams) -> Option<ExchangeState> {
+        p.as_ref().map(|(id, sel, rm, gctr)| ExchangeState {
+            exch_id: *id,
+            role: role_of(*sel),
+            mrp: mk_rm(rm),
+            #[cfg(feature = "groups")]
+            group_data_ctr: *gctr,
+        })
+    }
+
+    /// Field-wise equality (the derived one compares `cat_ids` through memcmp, a 12-iteration loop).
+    fn mode_eq(a: &SessionMode, b: &SessionMode) -> bool {
+        match (a, b) {
+            (SessionMode::PlainText, SessionMode::PlainText) => true,
+            (SessionMode::Pase { fab_idx: x }, SessionMode::Pase { fab_idx: y }) => x == y,
+            (SessionMode::Case { fab_idx: x, cat_ids: c }, SessionMode::Case { fab_idx: y, cat_ids: d }) => {
+                x == y && c[0] == d[0] && c[1] == d[1] && c[2] == d[2]
+            }
+            (SessionMode::Group { fab_idx: x, group_id: g }, SessionMode::Group { fab_idx: y, group_id: h }) => x == y && g == h,
+            _ => false,
+        }
+    }
+
+    pub(super) fn any_mode() -> SessionMode {
+        match kani::any::<u8>() % 4 {
+            0 => SessionMode::PlainText,
+            1 => SessionMode::Pase { fab_idx: kani::any() },
+            2 => SessionMode::Case {
+                fab_idx: kani::any(),
+                cat_ids: kani::any(),
+            },
+            _ => SessionMode::Group {
+                fab_idx: kani::any(),
+                group_id: kani::any(),
+            },
+        }
+    }
+
+    fn any_addr() -> Address {
+        use crate::transport::network::{BtAddr, IpAddr, Ipv4Addr, SocketAddr};
+        let sock = SocketAddr::new(IpAddr::V4(Ipv4Addr::new(10, 0, 0, 1)), 5540);
+        match kani::any::<u8>() % 3 {
+            0 => Address::Udp(sock),
+            1 => Address::Tcp(sock),
+            _ => Address::Btp(BtAddr([1, 2, 3, 4, 5, 6])),
+        }
+    }
+
+    /// Receive window of the session: fields are private to `dedup` (contract: property C04), so the
+    /// window is `new(k0)` optionally moved by one accepted counter.
+    fn mk_rx(p: &(u32, Option<u32>), encrypted: bool) -> RxCtrState {
+        let mut rx = RxCtrState::new(p.0);
+        if let Some(c) = p.1 {
+            let _ = rx.post_recv(c, encrypted, false);
+        }
+        rx
+    }
+
+    /// A session built directly from field values: `n` exchange slots, everything else arbitrary.
+    pub(super) fn mk_session(slots: &[SlotParams; MAX_EXCHANGES], n: usize, mode: SessionMode, rx: &(u32, Option<u32>)) -> Session {
+        let mut exchanges: Vec<Option<ExchangeState>, MAX_EXCHANGES> = Vec::new();
+        let mut i = 0;
+        while i < MAX_EXCHANGES {
+            if i < n {
+                let _ = exchanges.push(mk_slot(&slots[i]));
+            }
+            i += 1;
+        }
+        let encrypted = !matches!(mode, SessionMode::PlainText);
+        // Representation invariant: internal session ids fit in 28 bits (`Sessions::add` wraps the
+        // allocator at 0x0fff_ffff; `ExchangeId::new` panics beyond - allocator: property C15/C20).
+        let id: u32 = kani::any();
+        kani::assume(id <= 0x0fff_ffff);
+        Session {
+            id,
+            peer_addr: any_addr(),
+            local_nodeid: kani::any(),
+            peer_nodeid: kani::any(),
+            dec_key: CanonAeadKey::new(),
+            enc_key: CanonAeadKey::new(),
+            shared_secret: CanonPkcSharedSecret::new(),
+            att_challenge: AttChallenge::new(),
+            local_sess_id: kani::any(),
+            peer_sess_id: kani::any(),
+            msg_ctr: kani::any(),
+            rx_ctr_state: mk_rx(rx, encrypted),
+            mode,
+            exchanges,
+            last_use: Instant::from_ticks(kani::any()),
+            peer_active_interval_ms: kani::any(),
+            peer_idle_interval_ms: kani::any(),
+            peer_active_threshold_ms: kani::any(),
+            expired: kani::any(),
+            reserved: kani::any(),
+        }
+    }
+
+    /// Observation of a retransmission entry: (message counter, base interval, attempts made).
+    fn obs_retrans(e: &RetransEntry) -> (u32, u64, u16) {
+        read_retrans(e)
+    }
+
+    /// (base interval, attempts left of the budget of 5) of the entry in slot `j`.
+    fn probe_retrans(e: &RetransEntry) -> (u64, u16) {
+        let (_, base, counter) = read_retrans(e);
+        (base, if counter < 5 { 5 - counter } else { 0 })
+    }
+
+    pub(super) fn heavy(s: &Session, j: usize) -> Option<(u64, u16)> {
+        if j < s.exchanges.len() {
+            match s.exchanges[j].as_ref() {
+                Some(x) => x.mrp.retrans.as_ref().map(probe_retrans),
+                None => None,
+            }
+        } else {
+            None
+        }
+    }
+
+    /// Slot `j` carries a retransmission entry for the same counter in both observations.
+    pub(super) fn same_entry_expected(a: &TableObs, b: &TableObs, j: usize) -> bool {
+        match (&a.0[j], &b.0[j]) {
+            (Some((_, _, (Some(ra), _, _), _)), Some((_, _, (Some(rb), _, _), _))) => ra.0 == rb.0,
+            _ => false,
+        }
+    }
+
+    fn obs_rm(m: &ReliableMessage) -> RmObs {
+        (
+            m.retrans.as_ref().map(obs_retrans),
+            m.ack.as_ref().map(|a| (a.msg_ctr, a.acknowledged)),
+            m.received_at.map(|t| t.as_ticks()),
+        )
+    }
+
+    pub(super) fn obs_table(s: &Session) -> TableObs {
+        let mut t: [SlotObs; MAX_EXCHANGES] = [None; MAX_EXCHANGES];
+        let mut i = 0;
+        while i < MAX_EXCHANGES {
+            if i < s.exchanges.len() {
+                t[i] = s.exchanges[i]
+                    .as_ref()
+                    .map(|x| (x.exch_id, x.role, obs_rm(&x.mrp), x.group_data_ctr));
+            }
+            i += 1;
+        }
+        (t, s.exchanges.len())
+    }
+
+    pub(super) type Frame = (u32, u64, Option<u64>, u16, u16, u32, u64, u32, u32, u16, bool, bool);
+
+    pub(super) fn frame(s: &Session) -> Frame {
+        (
+            s.id,
+            s.local_nodeid,
+            s.peer_nodeid,
+            s.local_sess_id,
+            s.peer_sess_id,
+            s.msg_ctr,
+            s.last_use.as_ticks(),
+            s.peer_active_interval_ms,
+            s.peer_idle_interval_ms,
+            s.peer_active_threshold_ms,
+            s.expired,
+            s.reserved,
+        )
+    }
+
+    pub(super) fn any_hdr() -> PacketHdr {
+        let mut h = PacketHdr::new();
+        h.plain.sess_id = kani::any();
+        h.plain.ctr = kani::any();
+        if kani::any() {
+            h.plain.set_src_nodeid(Some(kani::any()));
+        }
+        if kani::any() {
+            h.plain.set_dst_unicast_nodeid(Some(kani::any()));
+        }
+        h.proto.exch_id = kani::any();
+        h.proto.proto_id = kani::any();
+        h.proto.proto_opcode = kani::any();
+        if kani::any() {
+            h.proto.set_reliable();
+        }
+        if kani::any() {
+            h.proto.set_initiator();
+        }
+        if kani::any() {
+            h.proto.set_ack(Some(kani::any()));
+        }
+        if kani::any() {
+            h.proto.set_vendor(Some(kani::any()));
+        }
+        h
+    }
+
+    // ---- reference predicates, from the property statement ----
+
+    /// A message sent by the initiator of an exchange is for the responder side and vice versa.
+    fn complementary(role: Role, msg_from_initiator: bool) -> bool {
+        match role {
+            Role::Responder(_) => msg_from_initiator,
+            Role::Initiator(_) => !msg_from_initiator,
+        }
+    }
+
+    fn owns(o: &SlotObs, proto: &ProtoHdr) -> bool {
+        match o {
+            Some((id, role, _, _)) => *id == proto.exch_id && complementary(*role, proto.is_initiator()),
+            None => false,
+        }
+    }
+
+    /// Kinds that never start an exchange: MRP standalone ack (SC 0x10), status report (SC 0x40).
+    fn may_open_exchange(proto: &ProtoHdr) -> bool {
+        !(proto.proto_id == 0x0000 && (proto.proto_opcode == 0x10 || proto.proto_opcode == 0x40))
+    }
+
+    fn same_side(a: Role, b: Role) -> bool {
+        matches!((a, b), (Role::Initiator(_), Role::Initiator(_)) | (Role::Responder(_), Role::Responder(_)))
+    }
+
+    /// Representation invariant: (exchange id, side) identifies a live exchange of a session.
+    /// Responder side: preserved by `post_recv` (obligation below). Initiator side: relies on
+    /// `Sessions::get_next_exch_id` handing out unused ids (property C15, DESIGN 6-D2).
+    fn unique(t: &TableObs) -> bool {
+        let mut ok = true;
+        let mut i = 0;
+        while i < MAX_EXCHANGES {
+            let mut j = i + 1;
+            while j < MAX_EXCHANGES {
+                if let (Some((ia, ra, _, _)), Some((ib, rb, _, _))) = (&t.0[i], &t.0[j]) {
+                    if ia == ib && same_side(*ra, *rb) {
+                        ok = false;
+                    }
+                }
+                j += 1;
+            }
+            i += 1;
+        }
+        ok
+    }
+
+    fn count_owners(t: &TableObs, proto: &ProtoHdr) -> (usize, Option<usize>) {
+        let mut n = 0;
+        let mut first = None;
+        let mut i = 0;
+        while i < MAX_EXCHANGES {
+            if owns(&t.0[i], proto) {
+                n += 1;
+                if first.is_none() {
+                    first = Some(i);
+                }
+            }
+            i += 1;
+        }
+        (n, first)
+    }
+
+    pub(super) fn code_of<T>(r: &Result<T, Error>) -> Option<ErrorCode> {
+        match r {
+            Ok(_) => None,
+            Err(e) => Some(e.code()),
+        }
+    }
+
+    // TIER: thorough
+    // KIND: complete
+    #[kani::proof]
+    #[kani::unwind(9)]
+    fn c10_session_get_exch_for_rx() {
+        let n: usize = kani::any();
+        kani::assume(n <= MAX_EXCHANGES);
+        let slots: [SlotParams; MAX_EXCHANGES] = kani::any();
+        let s = mk_session(&slots, n, any_mode(), &kani::any());
+        let before = obs_table(&s);
+        let hj: usize = kani::any();
+        kani::assume(hj < MAX_EXCHANGES);
+        let h0 = heavy(&s, hj);
+        let hdr = any_hdr();
+
+        let r = s.get_exch_for_rx(&hdr.proto);
+        kani::assert(layout_checked(), "C10.get_exch_for_rx.retrans_entry_layout_checked");
+
+        let (n_match, first) = count_owners(&before, &hdr.proto);
+        match r {
+            Some(i) => {
+                kani::assert(i < n, "C10.get_exch_for_rx.index_in_table");
+                kani::assert(i < MAX_EXCHANGES && owns(&before.0[i], &hdr.proto), "C10.get_exch_for_rx.result_is_live_owner");
+                kani::assert(first == Some(i), "C10.get_exch_for_rx.result_is_first_owner");
+                kani::assert(!unique(&before) || n_match == 1, "C10.get_exch_for_rx.owner_is_the_only_one");
+            }
+            None => {
+                kani::assert(n_match == 0, "C10.get_exch_for_rx.none_only_without_owner");
+            }
+        }
+        kani::assert(obs_table(&s) == before && heavy(&s, hj) == h0, "C10.get_exch_for_rx.pure");
+
+        kani::cover!(r.is_some() && n_match == 1, "single owner");
+        kani::cover!(r.is_some() && n_match > 1, "several candidates (invariant broken)");
+        kani::cover!(r.is_none() && n == MAX_EXCHANGES, "no owner in a full table");
+        kani::cover!(matches!(r, Some(i) if i == MAX_EXCHANGES - 1), "owner in the last slot");
+    }
+
+    // TIER: thorough
+    // KIND: complete
+    #[kani::proof]
+    #[kani::unwind(9)]
+    #[kani::stub(embassy_time::Instant::now, fake_now)]
+    fn c10_session_post_recv() {
+        let n: usize = kani::any();
+        kani::assume(n <= MAX_EXCHANGES);
+        let slots: [SlotParams; MAX_EXCHANGES] = kani::any();
+        let mode = any_mode();
+        let mode0 = mode.clone();
+        let encrypted = !matches!(mode, SessionMode::PlainText);
+        let rxp: (u32, Option<u32>) = kani::any();
+        let mut s = mk_session(&slots, n, mode, &rxp);
+        let mut twin_rx = mk_rx(&rxp, encrypted);
+        let before = obs_table(&s);
+        let frame0 = frame(&s);
+        let expired = s.expired;
+        let hj: usize = kani::any();
+        kani::assume(hj < MAX_EXCHANGES);
+        let h0 = heavy(&s, hj);
+        let hdr = any_hdr();
+
+        let res = s.post_recv(&hdr);
+        kani::assert(layout_checked(), "C10.post_recv.retrans_entry_layout_checked");
+
+        let after = obs_table(&s);
+        let h1 = heavy(&s, hj);
+        let code = code_of(&res);
+        let table_unchanged = after == before;
+
+        // reference values
+        let duplicate = !twin_rx.post_recv(hdr.plain.ctr, encrypted, false); // C04 contract of the window
+        let (n_match, first) = count_owners(&before, &hdr.proto);
+        let from_initiator = hdr.proto.is_initiator();
+        let may_open = may_open_exchange(&hdr.proto);
+        let mut free = n < MAX_EXCHANGES;
+        let mut i = 0;
+        while i < MAX_EXCHANGES {
+            if i < n && before.0[i].is_none() {
+                free = true;
+            }
+            i += 1;
+        }
+
+        // -- the session outside its receive window and exchange table is never touched
+        kani::assert(frame(&s) == frame0 && mode_eq(&s.mode, &mode0), "C10.post_recv.session_frame");
+        // -- the receive window makes exactly the C04 step
+        {
+            let probe: u32 = kani::any();
+            let mut w: RxCtrState = unsafe { core::ptr::read(&s.rx_ctr_state) };
+            kani::assert(
+                w.post_recv(probe, encrypted, false) == twin_rx.post_recv(probe, encrypted, false),
+                "C10.post_recv.rx_window_is_dedup_step"
+            );
+        }
+
+        if duplicate {
+            // refused before any exchange is looked at
+            kani::assert(code == Some(ErrorCode::Duplicate), "C10.post_recv.duplicate_counter_refused");
+            kani::assert(table_unchanged, "C10.post_recv.duplicate_touches_no_exchange");
+        } else if let Some(f) = first {
+            // delivered to the owner and to nobody else
+            kani::assert(
+                matches!(res, Ok(false)) || code == Some(ErrorCode::Duplicate),
+                "C10.post_recv.owned_message_opens_nothing"
+            );
+            kani::assert(after.1 == before.1, "C10.post_recv.owned_table_length_unchanged");
+            let j: usize = kani::any();
+            kani::assume(j < MAX_EXCHANGES && j != f);
+            kani::assert(after.0[j] == before.0[j], "C10.post_recv.only_owner_touched");
+            kani::assert(after.0[f].is_some(), "C10.post_recv.owner_stays_live");
+            if let (Some((id0, role0, rm0, g0)), Some((id1, role1, rm1, g1))) = (&before.0[f], &after.0[f]) {
+                kani::assert(id0 == id1 && role0 == role1 && g0 == g1, "C10.post_recv.only_owner_reliability_state_changed");
+                if res.is_ok() {
+                    kani::assert(!hdr.proto.is_reliable() || rm1.1 == Some((hdr.plain.ctr, false)), "C10.post_recv.owner_will_ack_this_message");
+                    kani::assert(rm1.2.is_some(), "C10.post_recv.owner_receive_time_stamped");
+                } else {
+                    // acknowledgement of another counter: dropped, owner untouched
+                    kani::assert(rm0 == rm1, "C10.post_recv.refused_by_owner_changes_nothing");
+                }
+            }
+            kani::assert(!unique(&before) || n_match == 1, "C10.post_recv.exactly_one_owner");
+        } else {
+            // nobody owns it
+            if !from_initiator || !may_open {
+                kani::assert(code == Some(ErrorCode::NoExchange), "C10.post_recv.answer_to_unknown_exchange_dropped");
+            } else if expired {
+                kani::assert(code == Some(ErrorCode::NoSession), "C10.post_recv.expired_session_opens_nothing");
+            } else if !free {
+                kani::assert(code == Some(ErrorCode::NoSpaceExchanges), "C10.post_recv.full_table_reported");
+            } else {
+                kani::assert(matches!(res, Ok(true)), "C10.post_recv.initiator_message_opens_exchange");
+            }
+            if res.is_err() {
+                kani::assert(table_unchanged, "C10.post_recv.error_leaves_table_unchanged");
+            }
+        }
+
+        // -- what the results mean
+        if matches!(res, Ok(false)) {
+            kani::assert(!duplicate && n_match >= 1, "C10.post_recv.ok_false_means_live_owner");
+        }
+        if matches!(res, Ok(true)) {
+            kani::assert(
+                !duplicate && n_match == 0 && from_initiator && may_open && !expired,
+                "C10.post_recv.ok_true_only_for_admissible_initiator_message"
+            );
+            // exactly one slot changed: it was free, and now holds a fresh accept-pending responder
+            let mut changed = 0;
+            let mut k = 0;
+            let mut i = 0;
+            while i < MAX_EXCHANGES {
+                if after.0[i] != before.0[i] {
+                    changed += 1;
+                    k = i;
+                }
+                i += 1;
+            }
+            kani::assert(changed == 1, "C10.post_recv.new_exchange_changes_one_slot");
+            kani::assert(before.0[k].is_none() && k <= before.1, "C10.post_recv.new_exchange_uses_free_slot");
+            kani::assert(after.1 == if k == before.1 { before.1 + 1 } else { before.1 }, "C10.post_recv.new_exchange_table_length");
+            kani::assert(after.0[k].is_some(), "C10.post_recv.new_exchange_is_live");
+            if let Some((id, role, rm, g)) = &after.0[k] {
+                kani::assert(*id == hdr.proto.exch_id, "C10.post_recv.new_exchange_has_packet_id");
+                kani::assert(*role == Role::Responder(ResponderState::AcceptPending), "C10.post_recv.new_exchange_is_accept_pending_responder");
+                kani::assert(
+                    rm.0.is_none()
+                        && rm.1 == if hdr.proto.is_reliable() { Some((hdr.plain.ctr, false)) } else { None }
+                        && rm.2.is_some()
+                        && g.is_none(),
+                    "C10.post_recv.new_exchange_is_fresh"
+                );
+            }
+        }
+        if code == Some(ErrorCode::NoExchange) || code == Some(ErrorCode::NoSession) || code == Some(ErrorCode::NoSpaceExchanges) {
+            kani::assert(table_unchanged && n_match == 0, "C10.post_recv.refusals_leave_table_unchanged");
+        }
+        kani::assert(
+            res.is_ok()
+                || matches!(code, Some(ErrorCode::Duplicate | ErrorCode::NoExchange | ErrorCode::NoSession | ErrorCode::NoSpaceExchanges)),
+            "C10.post_recv.no_other_error"
+        );
+        // -- no retransmission entry is tampered with or invented (an entry is kept as it is, or
+        //    cleared in the owner by a matching acknowledgement)
+        kani::assert(!same_entry_expected(&before, &after, hj) || h1 == h0, "C10.post_recv.no_retransmission_entry_tampered");
+        {
+            let j: usize = kani::any();
+            kani::assume(j < MAX_EXCHANGES);
+            let had = matches!(&before.0[j], Some((_, _, (Some(_), _, _), _)));
+            let has = matches!(&after.0[j], Some((_, _, (Some(_), _, _), _)));
+            kani::assert(!has || (had && same_entry_expected(&before, &after, j)), "C10.post_recv.no_retransmission_entry_invented");
+        }
+        // -- the table invariant is preserved
+        kani::assert(!unique(&before) || unique(&after), "C10.post_recv.exchange_identity_stays_unique");
+
+        kani::cover!(duplicate, "duplicate counter");
+        kani::cover!(matches!(res, Ok(false)) && first == Some(MAX_EXCHANGES - 1), "delivered to the last slot");
+        kani::cover!(matches!(res, Ok(false)) && n_match > 1, "several candidates (invariant broken)");
+        kani::cover!(!duplicate && first.is_some() && res.is_err(), "owner refuses a stale ack");
+        kani::cover!(matches!(res, Ok(true)) && before.1 == MAX_EXCHANGES, "new exchange re-uses a freed slot");
+        kani::cover!(matches!(res, Ok(true)) && before.1 < MAX_EXCHANGES, "new exchange appended");
+        kani::cover!(code == Some(ErrorCode::NoExchange) && !from_initiator, "answer to unknown exchange");
+        kani::cover!(code == Some(ErrorCode::NoExchange) && from_initiator, "standalone ack / status for unknown exchange");
+        kani::cover!(code == Some(ErrorCode::NoSession), "expired session");
+        kani::cover!(code == Some(ErrorCode::NoSpaceExchanges), "table full");
+    }
+
+    // ---------------------------------------------------------------------------------------------
+    // The synchronous sweeps of the transport runner (private methods of `transport`, reachable
+    // from this descendant module). They run against a real `Matter` whose session table is built
+    // from fields: session 0 with up to two exchange slots, session 1 without exchanges.
+    // ---------------------------------------------------------------------------------------------
+
+    #[allow(dead_code)]
+    static mut NOW_TICKS: u64 = 0;
+
+    /// The clock reads a value chosen (arbitrarily) by the harness, so that the oracle can refer to it.
+    #[allow(dead_code)]
+    fn fixed_now() -> Instant {
+        Instant::from_ticks(unsafe { NOW_TICKS })
+    }
+
+    #[allow(dead_code)]
+    const SWEEP_SESSIONS: usize = 2;
+    #[allow(dead_code)]
+    const SWEEP_SLOTS: usize = 2;
+
+    #[allow(dead_code)]
+    struct World {
+        n_sessions: usize,
+        /// does session k claim the packet (`Session::is_for_rx`, contract: property C03)
+        claims: [bool; SWEEP_SESSIONS],
+        tables: [TableObs; SWEEP_SESSIONS],
+        frames: [Frame; SWEEP_SESSIONS],
+        /// full observation of the retransmission entry in one arbitrary slot (session, index)
+        probe_at: (usize, usize),
+        probe: Option<(u64, u16)>,
+    }
+
+    #[allow(dead_code)]
+    fn install_world(matter: &Matter<'_>, peer: &Address, hdr: &PacketHdr) -> World {
+        let n_sessions: usize = kani::any();
+        kani::assume(n_sessions <= SWEEP_SESSIONS);
+        // bound chosen for tractability: the first session carries at most SWEEP_SLOTS exchange
+        // slots, the second none (it only competes for the packet)
+        let n0: usize = kani::any();
+        kani::assume(n0 <= SWEEP_SLOTS);
+        let n1: usize = 0;
+        let mut slots0: [SlotParams; MAX_EXCHANGES] = [None; MAX_EXCHANGES];
+        slots0[0] = kani::any();
+        slots0[1] = kani::any();
+        let slots1: [SlotParams; MAX_EXCHANGES] = [None; MAX_EXCHANGES];
+        let s0 = mk_session(&slots0, n0, any_mode(), &kani::any());
+        let s1 = mk_session(&slots1, n1, any_mode(), &kani::any());
+
+        let probe_at: (usize, usize) = kani::any();
+        kani::assume(probe_at.0 < SWEEP_SESSIONS && probe_at.1 < MAX_EXCHANGES);
+        let world = World {
+            probe_at,
+            probe: if probe_at.0 == 0 { heavy(&s0, probe_at.1) } else { heavy(&s1, probe_at.1) },
+            n_sessions,
+            claims: [
+                n_sessions > 0 && s0.is_for_rx(peer, &hdr.plain),
+                n_sessions > 1 && s1.is_for_rx(peer, &hdr.plain),
+            ],
+            tables: [obs_table(&s0), obs_table(&s1)],
+            frames: [frame(&s0), frame(&s1)],
+        };
+
+        let mut sessions: Vec<Session, MAX_SESSIONS> = Vec::new();
+        if n_sessions > 0 {
+            let _ = sessions.push(s0);
+        }
+        if n_sessions > 1 {
+            let _ = sessions.push(s1);
+        }
+        let table = Sessions {
+            next_sess_unique_id: kani::any(),
+            next_sess_id: kani::any(),
+            next_exch_id: kani::any(),
+            sessions,
+            #[cfg(feature = "groups")]
+            group_ctr_store: GroupCtrStore::new(),
+            #[cfg(feature = "groups")]
+            global_group_data_ctr: kani::any(),
+            #[cfg(feature = "groups")]
+            group_data_ctr_boundary: kani::any(),
+        };
+        matter.with_state(|st| st.sessions = table);
+        world
+    }
+
+    #[allow(dead_code)]
+    fn tables_now(matter: &Matter<'_>) -> (usize, [TableObs; SWEEP_SESSIONS], [Frame; SWEEP_SESSIONS]) {
+        matter.with_state(|st| {
+            let n = st.sessions.sessions.len();
+            let empty: TableObs = ([None; MAX_EXCHANGES], 0);
+            let mut t = [empty, empty];
+            let mut f = [(0, 0, None, 0, 0, 0, 0, 0, 0, 0, false, false); SWEEP_SESSIONS];
+            let mut k = 0;
+            while k < SWEEP_SESSIONS {
+                if k < n {
+                    t[k] = obs_table(&st.sessions.sessions[k]);
+                    f[k] = frame(&st.sessions.sessions[k]);
+                }
+                k += 1;
+            }
+            (n, t, f)
+        })
+    }
+
+    #[allow(dead_code)]
+    fn probe_now(matter: &Matter<'_>, w: &World) -> Option<(u64, u16)> {
+        matter.with_state(|st| {
+            if w.probe_at.0 < st.sessions.sessions.len() {
+                heavy(&st.sessions.sessions[w.probe_at.0], w.probe_at.1)
+            } else {
+                None
+            }
+        })
+    }
+
+    /// Everything of a session except the time of last use (which a look-up refreshes).
+    #[allow(dead_code)]
+    fn same_but_last_use(a: &Frame, b: &Frame) -> bool {
+        a.0 == b.0 && a.1 == b.1 && a.2 == b.2 && a.3 == b.3 && a.4 == b.4 && a.5 == b.5 && a.7 == b.7 && a.8 == b.8 && a.9 == b.9 && a.10 == b.10 && a.11 == b.11
+    }
+
+    #[allow(dead_code)]
+    fn any_packet(peer: Address, hdr: &PacketHdr, waiting: bool) -> crate::transport::Packet<8> {
+        let mut packet = crate::transport::Packet::<8>::new();
+        packet.peer = peer;
+        packet.header = hdr.clone();
+        if waiting {
+            let _ = packet.buf.push(kani::any());
+        }
+        packet
+    }
+
+    /// The session the packet belongs to (first one claiming it) and, there, its owner exchange.
+    #[allow(dead_code)]
+    fn addressee(w: &World, proto: &ProtoHdr) -> (Option<usize>, Option<usize>) {
+        let k = if w.claims[0] {
+            Some(0)
+        } else if w.claims[1] {
+            Some(1)
+        } else {
+            None
+        };
+        let owner = match k {
+            Some(k) => count_owners(&w.tables[k], proto).1,
+            None => None,
+        };
+        (k, owner)
+    }
+
+    #[allow(dead_code)]
+    fn is_dropped(role: Role) -> bool {
+        matches!(role, Role::Initiator(InitiatorState::Dropped) | Role::Responder(ResponderState::Dropped))
+    }
+
+    /// Orphan sweep: a waiting packet whose session is gone, whose exchange is gone, or whose owner
+    /// has dropped its exchange is discarded; a packet with a live owner is left for it; no exchange
+    /// is touched either way.
+    // TIER: thorough
+    // KIND: bounded (2 of MAX_SESSIONS=32 sessions; 2 of MAX_EXCHANGES=5 exchange slots in the first, none in the second)
+    // NOT CLOSED: CBMC did not finish within 900 s (twice, also with the reduced bound). Compiled only
+    // with `--cfg verif_c10_sweeps` so that the default run is not held up by it.
+    #[cfg(verif_c10_sweeps)]
+    #[kani::proof]
+    #[kani::unwind(9)]
+    #[kani::stub(embassy_time::Instant::now, fixed_now)]
+    fn c10_sweep_orphaned_rx_packet() {
+        unsafe {
+            NOW_TICKS = kani::any();
+        }
+        let matter = Matter::new(
+            &crate::dm::devices::test::TEST_DEV_DET,
+            crate::dm::devices::test::TEST_DEV_COMM,
+            &crate::dm::devices::test::TEST_DEV_ATT,
+            0,
+        );
+        let peer = any_addr();
+        let hdr = any_hdr();
+        let w = install_world(&matter, &peer, &hdr);
+        let waiting: bool = kani::any();
+        let mut packet = any_packet(peer, &hdr, waiting);
+        let runner = TransportRunner::new(&matter, crate::crypto::backend::dummy::DummyCrypto);
+
+        let r = runner.handle_orphaned_rx_packet(&mut packet);
+        kani::assert(layout_checked(), "C10.orphan_sweep.retrans_entry_layout_checked");
+
+        let (k, owner) = addressee(&w, &hdr.proto);
+        let owner_dropped = match (k, owner) {
+            (Some(k), Some(i)) => matches!(w.tables[k].0[i], Some((_, role, _, _)) if is_dropped(role)),
+            _ => false,
+        };
+        let nobody_picks_up = k.is_none() || owner.is_none() || owner_dropped;
+
+        kani::assert(r == (waiting && nobody_picks_up), "C10.orphan_sweep.discards_iff_nobody_can_pick_up");
+        kani::assert(packet.buf.is_empty() == (!waiting || nobody_picks_up), "C10.orphan_sweep.packet_cleared_iff_discarded");
+        kani::assert(!(waiting && !nobody_picks_up) || packet.buf.len() == 1, "C10.orphan_sweep.owned_packet_left_for_owner");
+        let (n_after, t_after, f_after) = tables_now(&matter);
+        kani::assert(n_after == w.n_sessions, "C10.orphan_sweep.no_session_added_or_removed");
+        kani::assert(t_after[0] == w.tables[0] || w.n_sessions < 1, "C10.orphan_sweep.touches_no_exchange");
+        kani::assert(t_after[1] == w.tables[1] || w.n_sessions < 2, "C10.orphan_sweep.touches_no_exchange_of_other_session");
+        kani::assert(
+            (w.n_sessions < 1 || same_but_last_use(&f_after[0], &w.frames[0])) && (w.n_sessions < 2 || same_but_last_use(&f_after[1], &w.frames[1])),
+            "C10.orphan_sweep.session_frame"
+        );
+        kani::assert(w.probe_at.0 >= w.n_sessions || probe_now(&matter, &w) == w.probe, "C10.orphan_sweep.touches_no_retransmission_entry");
+
+        kani::cover!(r && k.is_none(), "session gone");
+        kani::cover!(r && k == Some(1) && owner.is_none(), "no exchange in the second session");
+        kani::cover!(r && k == Some(0) && owner.is_none(), "exchange gone");
+        kani::cover!(r && owner_dropped, "owner dropped its exchange");
+        kani::cover!(!r && waiting, "live owner: left alone");
+        kani::cover!(!waiting, "nothing waiting");
+    }
+
+    /// Accept-timeout sweep: fires exactly when the waiting packet's owner is an accept-pending
+    /// responder whose message arrived at least the accept deadline (1 s) ago; then that exchange -
+    /// and only it - is marked dropped and the packet discarded. Otherwise nothing changes.
+    // TIER: thorough
+    // KIND: bounded (2 of MAX_SESSIONS=32 sessions; 2 of MAX_EXCHANGES=5 exchange slots in the first, none in the second)
+    // NOT CLOSED: CBMC did not finish within 900 s. Compiled only with `--cfg verif_c10_sweeps`.
+    #[cfg(verif_c10_sweeps)]
+    #[kani::proof]
+    #[kani::unwind(9)]
+    #[kani::stub(embassy_time::Instant::now, fixed_now)]
+    fn c10_sweep_accept_timeout_rx_packet() {
+        let now: u64 = kani::any();
+        unsafe {
+            NOW_TICKS = now;
+        }
+        let matter = Matter::new(
+            &crate::dm::devices::test::TEST_DEV_DET,
+            crate::dm::devices::test::TEST_DEV_COMM,
+            &crate::dm::devices::test::TEST_DEV_ATT,
+            0,
+        );
+        let peer = any_addr();
+        let hdr = any_hdr();
+        let w = install_world(&matter, &peer, &hdr);
+        let waiting: bool = kani::any();
+        let mut packet = any_packet(peer, &hdr, waiting);
+        let runner = TransportRunner::new(&matter, crate::crypto::backend::dummy::DummyCrypto);
+
+        let r = runner.handle_accept_timeout_rx_packet(&mut packet);
+        kani::assert(layout_checked(), "C10.accept_sweep.retrans_entry_layout_checked");
+
+        let (k, owner) = addressee(&w, &hdr.proto);
+        // deadline: one second after the message was received (clock ticks, saturating)
+        let second = embassy_time::Duration::from_millis(1000).as_ticks();
+        let past_deadline = match (k, owner) {
+            (Some(k), Some(i)) => match w.tables[k].0[i] {
+                Some((_, Role::Responder(ResponderState::AcceptPending), (_, _, Some(received_at)), _)) => received_at.saturating_add(second) <= now,
+                _ => false,
+            },
+            _ => false,
+        };
+        let fires = waiting && past_deadline;
+
+        kani::assert(r == fires, "C10.accept_sweep.fires_iff_accept_pending_past_deadline");
+        let (n_after, t_after, f_after) = tables_now(&matter);
+        kani::assert(n_after == w.n_sessions, "C10.accept_sweep.no_session_added_or_removed");
+        kani::assert(
+            (w.n_sessions < 1 || same_but_last_use(&f_after[0], &w.frames[0])) && (w.n_sessions < 2 || same_but_last_use(&f_after[1], &w.frames[1])),
+            "C10.accept_sweep.session_frame"
+        );
+        kani::assert(w.probe_at.0 >= w.n_sessions || probe_now(&matter, &w) == w.probe, "C10.accept_sweep.touches_no_retransmission_entry");
+        if fires {
+            if let (Some(k), Some(i)) = (k, owner) {
+                kani::assert(packet.buf.is_empty(), "C10.accept_sweep.unaccepted_packet_discarded");
+                kani::assert(t_after[k].1 == w.tables[k].1, "C10.accept_sweep.table_length_unchanged");
+                kani::assert(t_after[k].0[i].is_some(), "C10.accept_sweep.exchange_stays_allocated");
+                match (&w.tables[k].0[i], &t_after[k].0[i]) {
+                    (Some((id0, _, rm0, g0)), Some((id1, role1, rm1, g1))) => {
+                        kani::assert(*role1 == Role::Responder(ResponderState::Dropped), "C10.accept_sweep.exchange_marked_dropped");
+                        kani::assert(id0 == id1 && rm0 == rm1 && g0 == g1, "C10.accept_sweep.pending_ack_kept_for_the_closer");
+                    }
+                    _ => {}
+                }
+                let j: usize = kani::any();
+                kani::assume(j < MAX_EXCHANGES && j != i);
+                kani::assert(t_after[k].0[j] == w.tables[k].0[j], "C10.accept_sweep.only_timed_out_exchange_touched");
+                let other = 1 - k;
+                kani::assert(t_after[other] == w.tables[other] || w.n_sessions < 2, "C10.accept_sweep.other_session_untouched");
+            }
+        } else {
+            kani::assert(packet.buf.len() == if waiting { 1 } else { 0 }, "C10.accept_sweep.packet_kept_otherwise");
+            kani::assert(t_after[0] == w.tables[0] || w.n_sessions < 1, "C10.accept_sweep.nothing_touched_otherwise");
+            kani::assert(t_after[1] == w.tables[1] || w.n_sessions < 2, "C10.accept_sweep.nothing_touched_otherwise_other_session");
+        }
+
+        kani::cover!(fires && k == Some(0), "fires in the first session");
+        kani::cover!(!fires && waiting && owner.is_some(), "owner present, not due");
+        kani::cover!(!waiting, "nothing waiting");
+    }
+}
+
+mod c09 {
+    use super::*;
+
+    // Ghost record of the calls made to `RetransEntry::retransmission_timeout_ms`, which is replaced
+    // by its contract (transport__mrp.rs, C09.retrans_timeout.*): the sum of the whole retry ladder
+    // for the given intervals, below 2^36 ms.
+    static mut OUT_CALLS: u8 = 0; // ladders computed for a peer that may be idle
+    static mut OUT_ARGS: (u32, u32, u16) = (0, 0, 0);
+    static mut OUT_RESULT: u64 = 0;
+    static mut IN_CALLS: u8 = 0; // ladders computed for a peer known to be active
+    static mut IN_ACTIVE: u32 = 0;
+    static mut IN_RESULT: u64 = 0;
+
+    fn ladder_by_contract(active: u32, idle: u32, threshold: u16, active_only: bool) -> u64 {
+        let r: u64 = kani::any();
+        kani::assume(r < (1u64 << 36));
+        unsafe {
+            if active_only {
+                IN_CALLS += 1;
+                IN_ACTIVE = active;
+                IN_RESULT = r;
+            } else {
+                OUT_CALLS += 1;
+                OUT_ARGS = (active, idle, threshold);
+                OUT_RESULT = r;
+            }
+        }
+        r
+    }
+
+    fn session_with(addr: Address, active: u32, idle: u32, threshold: u16) -> Session {
+        Session {
+            id: kani::any(),
+            peer_addr: addr,
+            local_nodeid: kani::any(),
+            peer_nodeid: kani::any(),
+            dec_key: CanonAeadKey::new(),
+            enc_key: CanonAeadKey::new(),
+            shared_secret: CanonPkcSharedSecret::new(),
+            att_challenge: AttChallenge::new(),
+            local_sess_id: kani::any(),
+            peer_sess_id: kani::any(),
+            msg_ctr: kani::any(),
+            rx_ctr_state: RxCtrState::new(kani::any()),
+            mode: SessionMode::PlainText,
+            exchanges: Vec::new(),
+            last_use: Instant::from_ticks(kani::any()),
+            peer_active_interval_ms: active,
+            peer_idle_interval_ms: idle,
+            peer_active_threshold_ms: threshold,
+            expired: kani::any(),
+            reserved: kani::any(),
+        }
+    }
+
+    // TIER: quick
+    // KIND: complete
+    #[kani::proof]
+    #[kani::unwind(8)]
+    #[kani::stub(RetransEntry::retransmission_timeout_ms, ladder_by_contract)]
+    fn c09_session_rx_timeout_udp() {
+        use crate::transport::network::{IpAddr, Ipv4Addr, SocketAddr};
+        let (active, idle): (u32, u32) = kani::any();
+        let threshold: u16 = kani::any();
+        let local: u32 = kani::any();
+        let s = session_with(
+            Address::Udp(SocketAddr::new(IpAddr::V4(Ipv4Addr::new(10, 0, 0, 1)), 5540)),
+            active,
+            idle,
+            threshold,
+        );
+
+        // no overflow for any advertised interval (automatic checks)
+        let t = s.rx_timeout_ms(local);
+
+        let (out_calls, out_args, outbound, in_calls, in_active, inbound) =
+            unsafe { (OUT_CALLS, OUT_ARGS, OUT_RESULT, IN_CALLS, IN_ACTIVE, IN_RESULT) };
+        // outbound: our message on its way to a peer that may be idle, paced by the peer's intervals
+        kani::assert(out_calls == 1 && out_args == (active, idle, threshold), "C09.rx_timeout.outbound_ladder_uses_peer_intervals");
+        // inbound: the peer's answer, paced by our own active interval (the peer is awake by then)
+        kani::assert(in_calls == 1 && in_active == local, "C09.rx_timeout.inbound_ladder_uses_own_active_interval");
+        kani::assert(t >= outbound && t >= inbound, "C09.rx_timeout.at_least_each_retry_ladder");
+        kani::assert(t >= outbound + inbound, "C09.rx_timeout.at_least_both_retry_ladders");
+        kani::assert(t >= outbound + inbound + 30_000, "C09.rx_timeout.plus_processing_allowance");
+
+        kani::cover!(idle > active && threshold > 0, "idle fallback");
+        kani::cover!(outbound == (1u64 << 36) - 1 && inbound == (1u64 << 36) - 1, "largest ladders");
+    }
+
+    // TIER: quick
+    // KIND: complete
+    #[kani::proof]
+    #[kani::unwind(8)]
+    fn c09_session_rx_timeout_reliable_transports() {
+        use crate::transport::network::{BtAddr, IpAddr, Ipv4Addr, SocketAddr};
+        let tcp = session_with(
+            Address::Tcp(SocketAddr::new(IpAddr::V4(Ipv4Addr::new(10, 0, 0, 1)), 5540)),
+            kani::any(),
+            kani::any(),
+            kani::any(),
+        );
+        let btp = session_with(Address::Btp(BtAddr([1, 2, 3, 4, 5, 6])), kani::any(), kani::any(), kani::any());
+        let local: u32 = kani::any();
+        // no MRP underneath: a flat, positive bound independent of any advertised interval
+        kani::assert(tcp.rx_timeout_ms(local) == 30_000, "C09.rx_timeout.tcp_flat");
+        kani::assert(btp.rx_timeout_ms(local) == 5_000, "C09.rx_timeout.btp_flat");
+    }
+
+    /// `Session::pre_send` is the only caller of `ExchangeState::pre_send` and hence of the MRP
+    /// layer: it never trips the MRP precondition (a pending message is re-sent under its own
+    /// counter - the `panic!` in `RetransEntry::pre_send` is unreachable), a retransmission re-uses
+    /// the counter of the pending message (so the receiver recognises it as a duplicate), a new
+    /// message takes a fresh one, and a used-up budget is reported as `TxTimeout`.
+    ///
+    /// Excluded, tracked elsewhere: `msg_ctr == u32::MAX` (overflow of the session counter,
+    /// property C15 / DESIGN 6-D2b); group sessions (group data counter, property C12).
+    // TIER: thorough
+    // KIND: complete
+    #[kani::proof]
+    #[kani::unwind(9)]
+    fn c09_session_pre_send() {
+        use super::c10::{any_hdr, any_mode, code_of, heavy, mk_session, obs_table, same_entry_expected, SlotParams};
+        let n: usize = kani::any();
+        kani::assume(n <= MAX_EXCHANGES);
+        let slots: [SlotParams; MAX_EXCHANGES] = kani::any();
+        let mode = any_mode();
+        kani::assume(!matches!(mode, SessionMode::Group { .. }));
+        let is_case = matches!(mode, SessionMode::Case { .. });
+        let mut s = mk_session(&slots, n, mode, &kani::any());
+        kani::assume(s.msg_ctr != u32::MAX);
+        // precondition: the exchange handle refers to a live slot
+        let i: usize = kani::any();
+        kani::assume(i < n && slots[i].is_some());
+        let mut hdr = any_hdr();
+        let (sai, sii): (Option<u32>, Option<u32>) = kani::any();
+
+        let before = obs_table(&s);
+        let h0 = heavy(&s, i);
+        let (msg_ctr0, expired0) = (s.msg_ctr, s.expired);
+
+        let res = s.pre_send(Some(i), &mut hdr, sai, sii);
+        kani::assert(super::c10::layout_checked(), "C09.session_pre_send.retrans_entry_layout_checked");
+
+        let after = obs_table(&s);
+        let h1 = heavy(&s, i);
+        let code = code_of(&res);
+        let (id0, role0, rm0) = match &before.0[i] {
+            Some((id, role, rm, _)) => (*id, *role, *rm),
+            None => (0, Role::Initiator(Default::default()), (None, None, None)),
+        };
+        let pending = rm0.0.map(|r| r.0);
+        let on_wire_reliable = hdr.proto.is_reliable();
+        let budget_used_up = matches!(h0, Some((_, 0)));
+
+        // addressed to its own exchange, in its own role
+        kani::assert(hdr.proto.exch_id == id0, "C09.session_pre_send.header_carries_own_exchange_id");
+        kani::assert(hdr.proto.is_initiator() == matches!(role0, Role::Initiator(_)), "C09.session_pre_send.header_carries_own_role");
+        // counters
+        match pending {
+            Some(ctr) => {
+                kani::assert(hdr.plain.ctr == ctr, "C09.session_pre_send.retransmission_reuses_counter");
+                kani::assert(s.msg_ctr == msg_ctr0, "C09.session_pre_send.retransmission_consumes_no_counter");
+            }
+            None => {
+                kani::assert(hdr.plain.ctr == msg_ctr0 && s.msg_ctr == msg_ctr0 + 1, "C09.session_pre_send.new_message_takes_fresh_counter");
+            }
+        }
+        if let Ok((_, retransmission)) = &res {
+            kani::assert(*retransmission == pending.is_some(), "C09.session_pre_send.retransmission_flag_truthful");
+        }
+        // truthful result
+        let give_up = on_wire_reliable && pending.is_some() && budget_used_up;
+        kani::assert(res.is_err() == give_up, "C09.session_pre_send.err_iff_budget_used_up");
+        kani::assert(res.is_ok() || code == Some(ErrorCode::TxTimeout), "C09.session_pre_send.err_is_tx_timeout");
+        kani::assert(after.0[i].is_some(), "C09.session_pre_send.exchange_stays_allocated");
+        if let Some((_, _, rm1, _)) = &after.0[i] {
+            if give_up {
+                kani::assert(rm1.0.is_none() && rm1.1.is_none(), "C09.session_pre_send.give_up_clears_exchange_state");
+            } else if on_wire_reliable {
+                kani::assert(h1.is_some(), "C09.session_pre_send.reliable_message_stays_pending");
+                match (h0, h1) {
+                    (Some((b0, left0)), Some((b1, left1))) => {
+                        kani::assert(b1 == b0 && left1 + 1 == left0 && same_entry_expected(&before, &after, i), "C09.session_pre_send.retransmission_counts_one_attempt");
+                    }
+                    (None, Some((_, left1))) => {
+                        kani::assert(left1 == 5 && matches!(rm1.0, Some(r) if r.0 == hdr.plain.ctr), "C09.session_pre_send.first_send_arms_retransmission_for_sent_counter");
+                    }
+                    _ => {}
+                }
+            } else {
+                kani::assert(rm1.0 == rm0.0 && h1 == h0, "C09.session_pre_send.unreliable_keeps_retransmission");
+            }
+            // a pending acknowledgement rides on whatever goes out
+            if let Some((a, _)) = rm0.1 {
+                kani::assert(hdr.proto.get_ack() == Some(a), "C09.session_pre_send.piggybacks_exactly_pending_ack");
+            }
+        }
+        // give-up on a CASE session marks it expired (so that it is not picked for new exchanges); nothing else does
+        kani::assert(s.expired == (expired0 || (give_up && is_case)), "C09.session_pre_send.only_give_up_expires_case_session");
+        // frame: the other exchanges
+        let j: usize = kani::any();
+        kani::assume(j < MAX_EXCHANGES && j != i);
+        kani::assert(after.0[j] == before.0[j] && after.1 == before.1, "C09.session_pre_send.other_exchanges_untouched");
+
+        kani::cover!(give_up && is_case && !expired0, "give up on a CASE session");
+        kani::cover!(res.is_ok() && pending.is_some() && on_wire_reliable, "retransmission");
+        kani::cover!(res.is_ok() && pending.is_none() && on_wire_reliable, "first reliable transmission");
+        kani::cover!(res.is_ok() && !on_wire_reliable && pending.is_some(), "unreliable message while one is pending");
+    }
+}
+
+mod c03 {
+    use super::*;
+
+    use crate::crypto::{AEAD_CANON_KEY_LEN, AEAD_TAG_LEN};
+    use crate::transport::network::{BtAddr, Ipv4Addr, Ipv6Addr, SocketAddr, SocketAddrV4, SocketAddrV6};
+    use crate::transport::verif_kani::c03::mock::{ref_nonce, MockCrypto};
+
+    #[allow(dead_code)]
+    fn fake_now() -> embassy_time::Instant {
+        embassy_time::Instant::from_ticks(kani::any())
+    }
+
+    fn any_sockaddr() -> SocketAddr {
+        if kani::any() {
+            let ip: [u8; 4] = kani::any();
+            SocketAddr::V4(SocketAddrV4::new(Ipv4Addr::from(ip), kani::any()))
+        } else {
+            let ip: [u8; 16] = kani::any();
+            SocketAddr::V6(SocketAddrV6::new(Ipv6Addr::from(ip), kani::any(), kani::any(), kani::any()))
+        }
+    }
+
+    fn any_address() -> Address {
+        let k: u8 = kani::any();
+        match k % 3 {
+            0 => Address::Udp(any_sockaddr()),
+            1 => Address::Tcp(any_sockaddr()),
+            _ => Address::Btp(BtAddr(kani::any())),
+        }
+    }
+
+    /// Reference canonical form of an address, written from the statement ("canonical peer
+    /// address": an IPv4-mapped IPv6 socket address `::ffff:a.b.c.d` denotes the IPv4 socket
+    /// address `a.b.c.d`, same port; everything else denotes itself):
+    /// (transport kind, is-v4, ip bytes, port, flow info, scope id).
+    fn ref_canon(a: &Address) -> (u8, bool, [u8; 16], u16, u32, u32) {
+        fn sock(kind: u8, s: &SocketAddr) -> (u8, bool, [u8; 16], u16, u32, u32) {
+            match s {
+                SocketAddr::V4(v4) => {
+                    let o = v4.ip().octets();
+                    let mut ip = [0u8; 16];
+                    ip[0] = o[0];
+                    ip[1] = o[1];
+                    ip[2] = o[2];
+                    ip[3] = o[3];
+                    (kind, true, ip, v4.port(), 0, 0)
+                }
+                SocketAddr::V6(v6) => {
+                    let o = v6.ip().octets();
+                    let mapped = o[0] == 0
+                        && o[1] == 0
+                        && o[2] == 0
+                        && o[3] == 0
+                        && o[4] == 0
+                        && o[5] == 0
+                        && o[6] == 0
+                        && o[7] == 0
+                        && o[8] == 0
+                        && o[9] == 0
+                        && o[10] == 0xff
+                        && o[11] == 0xff;
+                    if mapped {
+                        let mut ip = [0u8; 16];
+                        ip[0] = o[12];
+                        ip[1] = o[13];
+                        ip[2] = o[14];
+                        ip[3] = o[15];
+                        (kind, true, ip, v6.port(), 0, 0)
+                    } else {
+                        (kind, false, o, v6.port(), v6.flowinfo(), v6.scope_id())
+                    }
+                }
+            }
+        }
+        match a {
+            Address::Udp(s) => sock(0, s),
+            Address::Tcp(s) => sock(1, s),
+            Address::Btp(b) => {
+                let mut ip = [0u8; 16];
+                ip[0] = b.0[0];
+                ip[1] = b.0[1];
+                ip[2] = b.0[2];
+                ip[3] = b.0[3];
+                ip[4] = b.0[4];
+                ip[5] = b.0[5];
+                (2, false, ip, 0, 0, 0)
+            }
+        }
+    }
+
+    fn any_mode() -> SessionMode {
+        let k: u8 = kani::any();
+        let fab: u8 = kani::any();
+        match k % 4 {
+            0 => {
+                kani::assume(fab != 0);
+                SessionMode::Case {
+                    fab_idx: NonZeroU8::new(fab).unwrap(),
+                    cat_ids: kani::any(),
+                }
+            }
+            1 => SessionMode::Pase { fab_idx: fab },
+            2 => {
+                kani::assume(fab != 0);
+                SessionMode::Group {
+                    fab_idx: NonZeroU8::new(fab).unwrap(),
+                    group_id: kani::any(),
+                }
+            }
+            _ => SessionMode::PlainText,
+        }
+    }
+
+    /// `RxCtrState` keeps its two fields private to `transport::dedup`; the harness reads and
+    /// builds it through a structurally identical mirror (checked by `C03.harness.rx_mirror_valid`).
+    struct RxMirror {
+        max_ctr: u32,
+        ctr_bitmap: u16,
+    }
+
+    fn rx_view(s: &RxCtrState) -> (u32, u16) {
+        let m = unsafe { &*(s as *const RxCtrState as *const RxMirror) };
+        (m.max_ctr, m.ctr_bitmap)
+    }
+
+    fn any_rx_state() -> RxCtrState {
+        let m = RxMirror {
+            max_ctr: kani::any(),
+            ctr_bitmap: kani::any(),
+        };
+        unsafe { core::mem::transmute::<RxMirror, RxCtrState>(m) }
+    }
+
+    fn any_key() -> CanonAeadKey {
+        let k: [u8; AEAD_CANON_KEY_LEN] = kani::any();
+        CanonAeadKey::from(&k)
+    }
+
+    /// An arbitrary session, built from its fields. No representation invariant is needed by
+    /// the functions under contract here. The exchange table is left empty: none of them reads it.
+    fn any_session() -> Session {
+        Session {
+            id: kani::any(),
+            peer_addr: any_address(),
+            local_nodeid: kani::any(),
+            peer_nodeid: kani::any(),
+            dec_key: any_key(),
+            enc_key: any_key(),
+            shared_secret: CanonPkcSharedSecret::new(),
+            att_challenge: AttChallenge::new(),
+            local_sess_id: kani::any(),
+            peer_sess_id: kani::any(),
+            msg_ctr: kani::any(),
+            rx_ctr_state: any_rx_state(),
+            mode: any_mode(),
+            exchanges: Vec::new(),
+            last_use: Instant::from_ticks(kani::any()),
+            peer_active_interval_ms: kani::any(),
+            peer_idle_interval_ms: kani::any(),
+            peer_active_threshold_ms: kani::any(),
+            expired: kani::any(),
+            reserved: kani::any(),
+        }
+    }
+
+    /// An arbitrary received plain header = whatever the real decoder accepts (its contract is
+    /// `c03_plain_hdr_decode_total`), so exactly the headers the receive path can see.
+    fn any_rx_plain() -> PlainHdr {
+        let mut bytes: [u8; 24] = kani::any();
+        let mut h = PlainHdr::new();
+        let mut pb = ParseBuf::new(&mut bytes);
+        let r = h.decode(&mut pb);
+        kani::assume(r.is_ok());
+        h
+    }
+
+    fn secured(s: &Session) -> bool {
+        !matches!(s.mode, SessionMode::PlainText)
+    }
+
+    /// The statement's predicate: local session id, canonical peer address, encryption kind and
+    /// (when both present) source node match, and the slot is not reserved.
+    fn ref_for_rx(s: &Session, peer: &Address, h: &PlainHdr) -> bool {
+        let src_ok = match (s.peer_nodeid, h.get_src_nodeid()) {
+            (Some(a), Some(b)) => a == b,
+            _ => true,
+        };
+        let msg_secured = h.sess_id != 0 || h.is_group_session();
+        s.local_sess_id == h.sess_id
+            && ref_canon(&s.peer_addr) == ref_canon(peer)
+            && secured(s) == msg_secured
+            && src_ok
+            && !s.reserved
+    }
+
+    /// Unsecured sessions only: the message's destination node id, when present, must be the
+    /// ephemeral initiator node id this session uses (Matter: unsecured sessions are told apart
+    /// by it). Never constrains a secured session.
+    fn ref_unsecured_dst_ok(s: &Session, h: &PlainHdr) -> bool {
+        s.local_nodeid == 0
+            || match h.get_dst_unicast_nodeid() {
+                Some(d) => d == s.local_nodeid,
+                None => true,
+            }
+    }
+
+    /// `Session::is_for_rx` <=> the statement's predicate, for every session, peer address and
+    /// received header.
+    // TIER: thorough
+    // KIND: complete
+    #[kani::proof]
+    fn c03_is_for_rx_iff_reference() {
+        let s = any_session();
+        let peer = any_address();
+        let h = any_rx_plain();
+
+        let got = s.is_for_rx(&peer, &h);
+        let want = ref_for_rx(&s, &peer, &h);
+
+        let k: u32 = kani::any();
+        kani::assert(rx_view(&RxCtrState::new(k)) == (k, 0xffff), "C03.harness.rx_mirror_valid");
+
+        if secured(&s) {
+            kani::assert(got == want, "C03.is_for_rx.secured_iff_reference");
+        } else {
+            kani::assert(got == (want && ref_unsecured_dst_ok(&s, &h)), "C03.is_for_rx.unsecured_iff_reference_and_dst");
+        }
+        kani::assert(!got || want, "C03.is_for_rx.implies_reference");
+        // the single clauses, as the statement lists them
+        kani::assert(!got || s.local_sess_id == h.sess_id, "C03.is_for_rx.session_id_matches");
+        kani::assert(!got || !s.reserved, "C03.is_for_rx.never_a_reserved_slot");
+        kani::assert(!got || secured(&s) == h.is_encrypted(), "C03.is_for_rx.encryption_kind_matches");
+        kani::assert(
+            !got || s.peer_nodeid.is_none() || h.get_src_nodeid().is_none() || s.peer_nodeid == h.get_src_nodeid(),
+            "C03.is_for_rx.other_source_node_refused"
+        );
+        // canonical() agrees with the reference canonical form
+        kani::assert(
+            (s.peer_addr.canonical() == peer.canonical()) == (ref_canon(&s.peer_addr) == ref_canon(&peer)),
+            "C03.is_for_rx.canonical_address_is_reference"
+        );
+
+        kani::cover!(got && secured(&s), "secured match");
+        kani::cover!(got && !secured(&s), "unsecured match");
+        kani::cover!(got && s.peer_addr != peer, "match through the v4-mapped form");
+        kani::cover!(!got && want, "unsecured refused by destination node id");
+        kani::cover!(!got && s.local_sess_id == h.sess_id && !s.reserved && secured(&s) == h.is_encrypted() && ref_canon(&s.peer_addr) == ref_canon(&peer), "refused by source node id");
+        kani::cover!(got && matches!(s.mode, SessionMode::Group { .. }), "group session match");
+        kani::cover!(got && matches!(peer, Address::Btp(_)), "BTP match");
+    }
+
+    #[allow(dead_code)]
+    fn any_sessions(n: usize) -> Sessions {
+        let mut sessions: Vec<Session, MAX_SESSIONS> = Vec::new();
+        for _ in 0..n {
+            let _ = sessions.push(any_session());
+        }
+        Sessions {
+            next_sess_unique_id: kani::any(),
+            next_sess_id: kani::any(),
+            next_exch_id: kani::any(),
+            sessions,
+            group_ctr_store: GroupCtrStore::new(),
+            global_group_data_ctr: kani::any(),
+            group_data_ctr_boundary: kani::any(),
+        }
+    }
+
+    /// The part of a session the statement says a rejected message must not change.
+    #[derive(Clone, Copy, PartialEq, Eq)]
+    struct Snap {
+        id: u32,
+        msg_ctr: u32,
+        rx_max: u32,
+        rx_bm: u16,
+        dec_key: [u8; AEAD_CANON_KEY_LEN],
+        enc_key: [u8; AEAD_CANON_KEY_LEN],
+        local_sess_id: u16,
+        peer_sess_id: u16,
+        local_nodeid: u64,
+        peer_nodeid: Option<u64>,
+        exch_len: usize,
+        expired: bool,
+        reserved: bool,
+    }
+
+    fn snap(s: &Session) -> Snap {
+        Snap {
+            id: s.id,
+            msg_ctr: s.msg_ctr,
+            rx_max: rx_view(&s.rx_ctr_state).0,
+            rx_bm: rx_view(&s.rx_ctr_state).1,
+            dec_key: *s.dec_key.access(),
+            enc_key: *s.enc_key.access(),
+            local_sess_id: s.local_sess_id,
+            peer_sess_id: s.peer_sess_id,
+            local_nodeid: s.local_nodeid,
+            peer_nodeid: s.peer_nodeid,
+            exch_len: s.exchanges.len(),
+            expired: s.expired,
+            reserved: s.reserved,
+        }
+    }
+
+    #[allow(dead_code)]
+    fn check_get_for_rx(n: usize) {
+        let mut ss = any_sessions(n);
+        let peer = any_address();
+        let h = any_rx_plain();
+
+        // `j`: an arbitrary slot (when the table is not empty)
+        let j: usize = kani::any();
+        let have_j = j < n;
+        let jj = if have_j { j } else { 0 };
+        if n == 0 {
+            let got0 = ss.get_for_rx(&peer, &h).is_some();
+            kani::assert(!got0, "C03.get_for_rx.empty_table_finds_nothing");
+            return;
+        }
+        let before_j = snap(&ss.sessions[jj]);
+        let want_j = ref_for_rx(&ss.sessions[jj], &peer, &h)
+            && (secured(&ss.sessions[jj]) || ref_unsecured_dst_ok(&ss.sessions[jj], &h));
+        let ctr_before = (ss.global_group_data_ctr, ss.group_data_ctr_boundary, ss.next_sess_id, ss.next_exch_id, ss.next_sess_unique_id);
+
+        let got: Option<*const Session> = ss.get_for_rx(&peer, &h).map(|s| s as *const Session);
+
+        match got {
+            Some(p) => {
+                // it is a slot of the table, and the reference predicate holds for it
+                let mut found = false;
+                for k in 0..n {
+                    if core::ptr::eq(p, &ss.sessions[k]) {
+                        found = true;
+                        kani::assert(ref_for_rx(&ss.sessions[k], &peer, &h), "C03.get_for_rx.returned_session_is_for_rx");
+                        kani::assert(ss.sessions[k].is_for_rx(&peer, &h), "C03.get_for_rx.returned_session_passes_is_for_rx");
+                        kani::assert(!ss.sessions[k].reserved, "C03.get_for_rx.returned_session_not_reserved");
+                    }
+                }
+                kani::assert(found, "C03.get_for_rx.returns_a_table_slot");
+            }
+            None => {
+                kani::assert(!have_j || !want_j, "C03.get_for_rx.none_only_if_no_session_is_for_rx");
+            }
+        }
+        // frame: the lookup changes no session's counters, keys, ids (only `last_use` of the hit)
+        kani::assert(snap(&ss.sessions[jj]) == before_j, "C03.get_for_rx.frame_sessions");
+        kani::assert(ss.sessions.len() == n, "C03.get_for_rx.frame_len");
+        kani::assert(
+            ctr_before == (ss.global_group_data_ctr, ss.group_data_ctr_boundary, ss.next_sess_id, ss.next_exch_id, ss.next_sess_unique_id),
+            "C03.get_for_rx.frame_table_counters"
+        );
+
+        kani::cover!(got.is_some(), "hit");
+        kani::cover!(got.is_none(), "miss");
+        kani::cover!(got.is_some() && have_j && !want_j, "hit on another slot than j");
+    }
+
+    // NOT CLOSED (CBMC out of memory at 12 GB) - kept for the record, not compiled.
+    // TIER: quick
+    // KIND: bounded (3 of MAX_SESSIONS = 32 slots)
+    #[cfg(verif_unclosed)]
+    #[kani::proof]
+    #[kani::unwind(20)]
+    #[kani::stub(embassy_time::Instant::now, fake_now)]
+    fn c03_get_for_rx_3() {
+        check_get_for_rx(3);
+    }
+
+    // NOT CLOSED (never attempted at full capacity: the 3-slot version already runs out of memory).
+    // TIER: thorough
+    // KIND: complete
+    #[cfg(verif_unclosed)]
+    #[kani::proof]
+    #[kani::unwind(34)]
+    #[kani::stub(embassy_time::Instant::now, fake_now)]
+    fn c03_get_for_rx_full() {
+        let n: usize = kani::any();
+        kani::assume(n <= MAX_SESSIONS);
+        check_get_for_rx(n);
+    }
+
+    const DG_CAP: usize = 24 + 12 + 4 + AEAD_TAG_LEN;
+
+    /// Receive side of one secured session: plain header decoded by the real decoder from an
+    /// arbitrary datagram, then `Session::decode_remaining`. The primitive is handed the
+    /// session's DECRYPTION key, the nonce built from the header's security flags and counter
+    /// and the session's PEER node id, and as AAD the header bytes exactly as received. If the
+    /// primitive refuses, the result is `Err` and nothing of the session changed.
+    // TIER: thorough
+    // KIND: bounded (datagram <= 56 bytes)
+    #[kani::proof]
+    fn c03_session_decode_hands_peer_node_and_received_header() {
+        let s = any_session();
+        kani::assume(secured(&s));
+        let before = snap(&s);
+
+        let mut bytes: [u8; DG_CAP] = kani::any();
+        let orig = bytes;
+        let len: usize = kani::any();
+        kani::assume(len <= DG_CAP);
+
+        let mock = MockCrypto::new(kani::any(), true, 0);
+        let mut hdr = PacketHdr::new();
+        let mut pb = ParseBuf::new(&mut bytes[..len]);
+        let r0 = hdr.plain.decode(&mut pb);
+        kani::assume(r0.is_ok());
+        let hlen = pb.read_off();
+
+        let r = s.decode_remaining(&mock, &mut hdr, pb);
+
+        kani::assert(mock.calls.get() == 1, "C03.session_rx.primitive_called_exactly_once");
+        let call = mock.last.get().unwrap();
+        kani::assert(!call.encrypt, "C03.session_rx.is_decrypt");
+        kani::assert(call.key == *s.dec_key.access(), "C03.session_rx.key_is_session_dec_key");
+        let node = match s.peer_nodeid {
+            Some(n) => n,
+            None => 0,
+        };
+        let ctr = u32::from_le_bytes([orig[4], orig[5], orig[6], orig[7]]);
+        kani::assert(call.nonce == ref_nonce(orig[3], ctr, node), "C03.session_rx.nonce_from_received_flags_ctr_and_session_peer_node");
+        kani::assert(call.aad_len == hlen, "C03.session_rx.aad_len_is_received_header_len");
+        let i: usize = kani::any();
+        if i < hlen {
+            kani::assert(call.aad[i] == orig[i], "C03.session_rx.aad_is_received_header_bit_for_bit");
+        }
+        kani::assert(call.data_len == len - hlen, "C03.session_rx.cipher_text_is_whole_rest");
+        let j: usize = kani::any();
+        if j < len - hlen {
+            kani::assert(call.data[j] == orig[hlen + j], "C03.session_rx.cipher_text_bytes");
+        }
+
+        kani::assert(mock.aead_ok || r.is_err(), "C03.session_rx.auth_failure_is_err");
+        kani::assert(snap(&s) == before, "C03.session_rx.session_unchanged");
+        if let Ok((start, end)) = r {
+            kani::assert(start >= hlen + 6 && end == len - AEAD_TAG_LEN && start <= end, "C03.session_rx.payload_range_inside_plain_text");
+        }
+
+        kani::cover!(r.is_ok(), "accepted");
+        kani::cover!(r.is_ok() && hlen == 24, "accepted with the longest header");
+        kani::cover!(r.is_err() && !mock.aead_ok, "authentication failure");
+        kani::cover!(r.is_err() && mock.aead_ok, "malformed protocol header after decryption");
+        kani::cover!(s.peer_nodeid.is_none(), "session without peer node id");
+    }
+
+    /// Lookup + decode as `TransportRunner::decode_packet` composes them (transport.rs:1977-1988):
+    /// a datagram for which the primitive refuses ends in `Err` before `post_recv` is reached,
+    /// and no session's receive counter state, exchanges, keys or message counter changed.
+    // NOT CLOSED (CBMC out of memory at 12 GB) - kept for the record, not compiled.
+    // TIER: quick
+    // KIND: bounded (2 of 32 session slots, datagram <= 56 bytes)
+    #[cfg(verif_unclosed)]
+    #[kani::proof]
+    #[kani::unwind(20)]
+    #[kani::stub(embassy_time::Instant::now, fake_now)]
+    fn c03_lookup_then_decode_failure_is_frame() {
+        const N: usize = 2;
+        let mut ss = any_sessions(N);
+        let peer = any_address();
+        let j: usize = kani::any();
+        kani::assume(j < N);
+        let before_j = snap(&ss.sessions[j]);
+
+        let mut bytes: [u8; DG_CAP] = kani::any();
+        let len: usize = kani::any();
+        kani::assume(len <= DG_CAP);
+        // the primitive refuses whatever it is handed
+        let mock = MockCrypto::new(false, true, 0);
+
+        let mut hdr = PacketHdr::new();
+        let mut pb = ParseBuf::new(&mut bytes[..len]);
+        let r0 = hdr.plain.decode(&mut pb);
+        kani::assume(r0.is_ok());
+
+        let mut hit = false;
+        let mut hit_secured = false;
+        let mut res_err = true;
+        if let Some(session) = ss.get_for_rx(&peer, &hdr.plain) {
+            hit = true;
+            hit_secured = secured(session);
+            let r = session.decode_remaining(&mock, &mut hdr, pb);
+            res_err = r.is_err();
+        }
+
+        kani::assert(!(hit && hit_secured) || res_err, "C03.rx.auth_failure_is_err");
+        kani::assert(!(hit && hit_secured) || mock.calls.get() == 1, "C03.rx.secured_session_always_authenticates");
+        kani::assert(hit_secured || mock.calls.get() == 0, "C03.rx.no_key_no_primitive");
+        kani::assert(snap(&ss.sessions[j]) == before_j, "C03.rx.rejected_message_changes_no_session");
+
+        kani::cover!(hit && hit_secured, "secured session found, authentication refused");
+        kani::cover!(hit && !hit_secured, "unsecured session found");
+        kani::cover!(!hit, "no session");
+    }
+
+    /// The real `TransportRunner::decode_packet` (transport.rs:1965) on a `Matter` whose session
+    /// table holds arbitrary sessions: a secured unicast datagram for which the primitive refuses
+    /// whatever it is handed is rejected (`Err`), the primitive is consulted at most once, and no
+    /// session's receive counter state, exchanges, keys or message counter changed; no session
+    /// was added or removed.
+    // NOT CLOSED (CBMC time-out 900 s) - kept for the record, not compiled.
+    // TIER: thorough
+    // KIND: bounded (2 of 32 session slots, datagram <= 56 bytes, unicast)
+    #[cfg(verif_unclosed)]
+    #[kani::proof]
+    #[kani::unwind(20)]
+    #[kani::stub(embassy_time::Instant::now, fake_now)]
+    fn c03_decode_packet_refused_unicast_is_frame() {
+        use crate::dm::devices::test::{TEST_DEV_ATT, TEST_DEV_COMM, TEST_DEV_DET};
+
+        const N: usize = 2;
+        let matter = Matter::new(&TEST_DEV_DET, TEST_DEV_COMM, &TEST_DEV_ATT, 0);
+        matter.with_state(|st| {
+            for _ in 0..N {
+                let _ = st.sessions.sessions.push(any_session());
+            }
+        });
+        let j: usize = kani::any();
+        kani::assume(j < N);
+        let before_j = matter.with_state(|st| snap(&st.sessions.sessions[j]));
+        let ctrs_before = matter.with_state(|st| (st.sessions.global_group_data_ctr, st.sessions.group_data_ctr_boundary, st.sessions.next_sess_id));
+
+        let bytes: [u8; DG_CAP] = kani::any();
+        let len: usize = kani::any();
+        kani::assume(len <= DG_CAP);
+        // secured unicast: session id != 0, group bit clear
+        kani::assume((bytes[1] != 0 || bytes[2] != 0) && bytes[3] & 0x01 == 0);
+
+        let mut packet: crate::transport::Packet<64> = crate::transport::Packet::new();
+        packet.peer = any_address();
+        unsafe {
+            let v = packet.buf.buf_mut();
+            core::ptr::copy_nonoverlapping(bytes.as_ptr(), v.as_mut_ptr(), DG_CAP);
+            v.set_len(len);
+        }
+
+        // the primitive refuses whatever it is handed
+        let mock = MockCrypto::new(false, true, 0);
+        let runner = TransportRunner::new(&matter, &mock);
+
+        let r = runner.decode_packet(&mut packet);
+
+        kani::assert(r.is_err(), "C03.decode_packet.refused_secured_unicast_is_err");
+        kani::assert(mock.calls.get() <= 1, "C03.decode_packet.primitive_consulted_at_most_once");
+        let after_j = matter.with_state(|st| snap(&st.sessions.sessions[j]));
+        kani::assert(after_j == before_j, "C03.decode_packet.rejected_message_changes_no_session");
+        kani::assert(matter.with_state(|st| st.sessions.sessions.len()) == N, "C03.decode_packet.no_session_added_or_removed");
+        kani::assert(
+            ctrs_before == matter.with_state(|st| (st.sessions.global_group_data_ctr, st.sessions.group_data_ctr_boundary, st.sessions.next_sess_id)),
+            "C03.decode_packet.frame_table_counters"
+        );
+
+        kani::cover!(mock.calls.get() == 1, "session found, primitive refused");
+        kani::cover!(mock.calls.get() == 0 && len >= 8, "no session for this datagram");
+        kani::cover!(len < 8, "truncated header");
+    }
+
+    /// Transmit side: `Session::encode` hands the primitive the session's ENCRYPTION key, the
+    /// nonce built from the header's security flags and counter and the session's LOCAL node id,
+    /// and as AAD exactly the bytes that end up in front of the cipher text on the wire.
+    // TIER: thorough
+    // KIND: bounded (payload <= 4 bytes)
+    #[kani::proof]
+    fn c03_session_encode_hands_local_node_and_sent_header() {
+        let s = any_session();
+        kani::assume(secured(&s));
+        let before = snap(&s);
+
+        let mut tx = PacketHdr::new();
+        tx.plain = any_rx_plain();
+        tx.proto.exch_id = kani::any();
+        tx.proto.proto_id = kani::any();
+        tx.proto.proto_opcode = kani::any();
+        tx.proto.set_vendor(kani::any());
+        tx.proto.set_ack(kani::any());
+        if kani::any() {
+            tx.proto.set_initiator();
+        }
+        if kani::any() {
+            tx.proto.set_reliable();
+        }
+
+        const PAY_CAP: usize = 4;
+        const CAP: usize = PacketHdr::HDR_RESERVE + PAY_CAP + PacketHdr::TAIL_RESERVE;
+        let mut buf = [0u8; CAP];
+        let pay: [u8; PAY_CAP] = kani::any();
+        let pay_len: usize = kani::any();
+        kani::assume(pay_len <= PAY_CAP);
+
+        let mock = MockCrypto::new(kani::any(), true, 0);
+        let mut wb = WriteBuf::new(&mut buf);
+        let _ = wb.reserve(PacketHdr::HDR_RESERVE);
+        let _ = wb.append(&pay[..pay_len]);
+
+        let r = s.encode(&mock, &tx, &mut wb);
+
+        kani::assert(mock.calls.get() == 1, "C03.session_tx.primitive_called_exactly_once");
+        let call = mock.last.get().unwrap();
+        kani::assert(call.encrypt, "C03.session_tx.is_encrypt");
+        kani::assert(call.key == *s.enc_key.access(), "C03.session_tx.key_is_session_enc_key");
+        kani::assert(
+            call.nonce == ref_nonce(tx.plain.sec_flags.bits(), tx.plain.ctr, s.local_nodeid),
+            "C03.session_tx.nonce_from_sent_flags_ctr_and_session_local_node"
+        );
+        kani::assert(r.is_ok() == mock.aead_ok, "C03.session_tx.result_is_primitive_verdict");
+        kani::assert(snap(&s) == before, "C03.session_tx.session_unchanged");
+        if r.is_ok() {
+            let out = wb.as_slice();
+            kani::assert(out.len() == call.aad_len + call.data_len, "C03.session_tx.wire_is_header_then_cipher_text");
+            let i: usize = kani::any();
+            if i < call.aad_len {
+                kani::assert(out[i] == call.aad[i], "C03.session_tx.aad_is_sent_header_bit_for_bit");
+            }
+            kani::assert(call.data_len == call.pt_len + AEAD_TAG_LEN, "C03.session_tx.tag_space");
+            // the AAD is the encoding of the plain header being sent
+            kani::assert(out[3] == tx.plain.sec_flags.bits() && out[1] == tx.plain.sess_id as u8, "C03.session_tx.aad_is_plain_header");
+        }
+
+        kani::cover!(r.is_ok() && pay_len == PAY_CAP, "sent");
+        kani::cover!(r.is_ok() && call.aad_len == 24, "sent with the longest header");
+        kani::cover!(r.is_err(), "primitive failure");
+    }
+
+    /// What one node encodes for a session the peer decodes to the identical header fields and
+    /// payload: sender session `a`, receiver session `b` with `b.dec_key == a.enc_key` and
+    /// `b.peer_nodeid == a.local_nodeid`; then the receiver's primitive gets exactly the key,
+    /// nonce and AAD the sender's got (so an ideal AEAD accepts), and with the cipher text
+    /// standing for the plain text the decoded header and payload are the ones sent.
+    // TIER: thorough
+    // KIND: bounded (payload <= 4 bytes)
+    #[kani::proof]
+    fn c03_encode_then_decode_roundtrip() {
+        let a = any_session();
+        let b = any_session();
+        kani::assume(secured(&a) && secured(&b));
+        kani::assume(*b.dec_key.access() == *a.enc_key.access());
+        kani::assume(b.peer_nodeid == Some(a.local_nodeid) || (b.peer_nodeid.is_none() && a.local_nodeid == 0));
+        // UDP on the receiving side: reliable transports strip the R/A flags on purpose
+        kani::assume(matches!(b.peer_addr, Address::Udp(_)));
+
+        let mut tx = PacketHdr::new();
+        tx.plain = any_rx_plain();
+        tx.proto.exch_id = kani::any();
+        tx.proto.proto_id = kani::any();
+        tx.proto.proto_opcode = kani::any();
+        tx.proto.set_vendor(kani::any());
+        tx.proto.set_ack(kani::any());
+        if kani::any() {
+            tx.proto.set_initiator();
+        }
+        if kani::any() {
+            tx.proto.set_reliable();
+        }
+
+        const PAY_CAP: usize = 4;
+        const CAP: usize = PacketHdr::HDR_RESERVE + PAY_CAP + PacketHdr::TAIL_RESERVE;
+        let mut buf = [0u8; CAP];
+        let pay: [u8; PAY_CAP] = kani::any();
+        let pay_len: usize = kani::any();
+        kani::assume(pay_len <= PAY_CAP);
+
+        let tx_mock = MockCrypto::new(true, true, 0);
+        let (start, end) = {
+            let mut wb = WriteBuf::new(&mut buf);
+            let _ = wb.reserve(PacketHdr::HDR_RESERVE);
+            let _ = wb.append(&pay[..pay_len]);
+            let r = a.encode(&tx_mock, &tx, &mut wb);
+            kani::assert(r.is_ok(), "C03.roundtrip.encode_ok");
+            (wb.get_start(), wb.get_tail())
+        };
+        let sent = tx_mock.last.get().unwrap();
+
+        let rx_mock = MockCrypto::new(true, true, 0);
+        let mut rx = PacketHdr::new();
+        let wire = &mut buf[start..end];
+        let mut pb = ParseBuf::new(wire);
+        let r0 = rx.plain.decode(&mut pb);
+        kani::assert(r0.is_ok(), "C03.roundtrip.plain_decode_ok");
+        let r = b.decode_remaining(&rx_mock, &mut rx, pb);
+        kani::assert(r.is_ok(), "C03.roundtrip.decode_ok");
+        let got = rx_mock.last.get().unwrap();
+
+        kani::assert(got.key == sent.key, "C03.roundtrip.same_key");
+        kani::assert(got.nonce == sent.nonce, "C03.roundtrip.same_nonce");
+        kani::assert(got.aad_len == sent.aad_len && got.aad == sent.aad, "C03.roundtrip.same_aad");
+        kani::assert(got.data_len == sent.data_len, "C03.roundtrip.same_cipher_text_len");
+
+        kani::assert(rx.plain.sess_id == tx.plain.sess_id && rx.plain.ctr == tx.plain.ctr, "C03.roundtrip.plain_fixed_fields");
+        kani::assert(rx.plain.sec_flags.bits() == tx.plain.sec_flags.bits(), "C03.roundtrip.plain_sec_flags");
+        kani::assert(rx.plain.get_src_nodeid() == tx.plain.get_src_nodeid(), "C03.roundtrip.plain_src");
+        kani::assert(
+            rx.plain.get_dst_unicast_nodeid() == tx.plain.get_dst_unicast_nodeid()
+                && rx.plain.get_dst_groupcast_nodeid() == tx.plain.get_dst_groupcast_nodeid(),
+            "C03.roundtrip.plain_dst"
+        );
+        kani::assert(
+            rx.proto.exch_id == tx.proto.exch_id && rx.proto.proto_id == tx.proto.proto_id && rx.proto.proto_opcode == tx.proto.proto_opcode,
+            "C03.roundtrip.proto_fixed_fields"
+        );
+        kani::assert(rx.proto.get_vendor() == tx.proto.get_vendor() && rx.proto.get_ack() == tx.proto.get_ack(), "C03.roundtrip.proto_optional_fields");
+        kani::assert(
+            rx.proto.is_initiator() == tx.proto.is_initiator() && rx.proto.is_reliable() == tx.proto.is_reliable(),
+            "C03.roundtrip.proto_flags"
+        );
+        if let Ok((ps, pe)) = r {
+            kani::assert(pe - ps == pay_len, "C03.roundtrip.payload_len");
+            let i: usize = kani::any();
+            if i < pay_len {
+                kani::assert(buf[start + ps + i] == pay[i], "C03.roundtrip.payload_bytes");
+            }
+        }
+
+        kani::cover!(pay_len == PAY_CAP && tx.plain.get_src_nodeid().is_some(), "full payload, source present");
+        kani::cover!(tx.proto.get_vendor().is_some() && tx.proto.get_ack().is_some(), "all optional protocol fields");
+        kani::cover!(pay_len == 0, "empty payload");
+    }
+}
+
+#[cfg(feature = "groups")]
+mod c12 {
+    use super::*;
+
+    use crate::transport::verif_kani::c03::mock::MockCrypto;
+
+    const RANGE: u32 = 0x0fff_ffff;
+    const EPOCH: u32 = 1000;
+
+    fn in_cycle(v: u32) -> bool {
+        v >= 1 && v <= RANGE
+    }
+
+    fn succ(v: u32) -> u32 {
+        if v == RANGE {
+            1
+        } else {
+            v + 1
+        }
+    }
+
+    fn steps(a: u32, b: u32) -> u32 {
+        // positions 0..RANGE-1
+        let (pa, pb) = (a - 1, b - 1);
+        if pb >= pa {
+            pb - pa
+        } else {
+            pb + RANGE - pa
+        }
+    }
+
+    fn empty_sessions(ctr: u32, boundary: u32) -> Sessions {
+        Sessions {
+            next_sess_unique_id: kani::any(),
+            next_sess_id: kani::any(),
+            next_exch_id: kani::any(),
+            sessions: Vec::new(),
+            group_ctr_store: GroupCtrStore::new(),
+            global_group_data_ctr: ctr,
+            group_data_ctr_boundary: boundary,
+        }
+    }
+
+    /// `advance_group_data_ctr`: stays on the cycle for every input; one step is the cycle
+    /// successor (0x0fff_ffff -> 1); an epoch step lands 1000 steps ahead, or 999 when the jump
+    /// passes the skipped 0.
+    // TIER: quick
+    // KIND: complete
+    #[kani::proof]
+    fn c12_group_ctr_advance() {
+        let v: u32 = kani::any();
+        let d: u32 = kani::any();
+        let n = Sessions::advance_group_data_ctr(v, d);
+        kani::assert(in_cycle(n), "C12.group.advance_stays_on_cycle");
+        if in_cycle(v) {
+            kani::assert(Sessions::advance_group_data_ctr(v, 1) == succ(v), "C12.group.advance_one_is_successor");
+            let e = Sessions::advance_group_data_ctr(v, EPOCH);
+            kani::assert(steps(v, e) == EPOCH || steps(v, e) == EPOCH - 1, "C12.group.advance_epoch_is_one_epoch_ahead");
+            kani::assert(steps(v, e) == EPOCH || e < v, "C12.group.advance_epoch_short_only_across_wrap");
+        }
+        kani::cover!(v == RANGE && d == 1 && n == 1, "wrap 0x0fff_ffff -> 1");
+        kani::cover!(in_cycle(v) && steps(v, Sessions::advance_group_data_ctr(v, EPOCH)) == EPOCH - 1, "epoch across the wrap");
+        kani::cover!(in_cycle(v) && v > RANGE - EPOCH && steps(v, Sessions::advance_group_data_ctr(v, EPOCH)) == EPOCH, "epoch landing on the skipped 0");
+    }
+
+    /// `resume(d)` restarts at `d` (1 if the stored value is 0) with nothing covered, and
+    /// touches nothing else.
+    // TIER: quick
+    // KIND: complete
+    #[kani::proof]
+    fn c12_group_ctr_resume() {
+        let mut ss = empty_sessions(kani::any(), kani::any());
+        let ids = (ss.next_sess_unique_id, ss.next_sess_id, ss.next_exch_id);
+        let d: u32 = kani::any();
+        ss.resume_global_group_data_ctr(d);
+        let want = if d == 0 { 1 } else { d };
+        kani::assert(ss.global_group_data_ctr == want, "C12.group.resume_restarts_at_stored_boundary");
+        kani::assert(ss.group_data_ctr_boundary == want, "C12.group.resume_covers_nothing");
+        kani::assert(!(d <= RANGE) || in_cycle(ss.global_group_data_ctr), "C12.group.resume_stays_on_cycle");
+        kani::assert(ids == (ss.next_sess_unique_id, ss.next_sess_id, ss.next_exch_id) && ss.sessions.is_empty(), "C12.group.resume_frame");
+
+        let v: u32 = kani::any();
+        ss.set_global_group_data_ctr(v);
+        kani::assert(ss.global_group_data_ctr == v && ss.group_data_ctr_boundary == v, "C12.group.set_covers_nothing");
+        kani::cover!(d == 0, "stored 0");
+        kani::cover!(d == RANGE, "stored top of range");
+    }
+
+    /// Step contract of `reserve_global_group_data_ctr`, for every state satisfying the
+    /// invariant (uninitialised, or on the cycle with at most one epoch covered) and every
+    /// behaviour of the RNG.
+    // TIER: quick
+    // KIND: complete
+    #[kani::proof]
+    fn c12_group_ctr_reserve() {
+        let ctr: u32 = kani::any();
+        let bnd: u32 = kani::any();
+        let uninit = ctr == 0;
+        // representation invariant
+        kani::assume(if uninit { bnd == 0 } else { in_cycle(ctr) && in_cycle(bnd) && steps(ctr, bnd) <= EPOCH });
+        let mut ss = empty_sessions(ctr, bnd);
+        let ids = (ss.next_sess_unique_id, ss.next_sess_id, ss.next_exch_id);
+        let mock = MockCrypto::new(true, kani::any(), kani::any());
+
+        let r = ss.reserve_global_group_data_ctr(&mock);
+
+        match r {
+            Err(_) => {
+                kani::assert(uninit && !mock.rand_ok, "C12.group.reserve_fails_only_without_seed");
+                kani::assert(ss.global_group_data_ctr == ctr && ss.group_data_ctr_boundary == bnd, "C12.group.reserve_err_changes_nothing");
+            }
+            Ok((v, to_persist)) => {
+                // live counter and covered boundary the reservation started from
+                let (live, covered_to) = if uninit { (v, v) } else { (ctr, bnd) };
+                kani::assert(in_cycle(v), "C12.group.value_on_cycle");
+                kani::assert(v == live, "C12.group.value_is_live_counter");
+                kani::assert(!uninit || v == if mock.rand_value & RANGE == 0 { 1 } else { mock.rand_value & RANGE }, "C12.group.seed_is_masked_random");
+                kani::assert(ss.global_group_data_ctr == succ(v), "C12.group.counter_steps_by_one");
+                kani::assert(to_persist.is_some() == (live == covered_to), "C12.group.persist_iff_counter_reached_boundary");
+                match to_persist {
+                    Some(b) => {
+                        kani::assert(b == ss.group_data_ctr_boundary, "C12.group.returned_boundary_is_new_boundary");
+                        kani::assert(in_cycle(b), "C12.group.boundary_on_cycle");
+                        kani::assert(steps(v, b) == EPOCH || steps(v, b) == EPOCH - 1, "C12.group.boundary_one_epoch_ahead");
+                    }
+                    None => {
+                        kani::assert(ss.group_data_ctr_boundary == bnd, "C12.group.boundary_kept_when_covered");
+                    }
+                }
+                // the value handed out is strictly below the boundary that is (or must first be) stored
+                let s = steps(v, ss.group_data_ctr_boundary);
+                kani::assert(s >= 1 && s <= EPOCH, "C12.group.value_below_boundary");
+                // invariant re-established
+                kani::assert(
+                    in_cycle(ss.global_group_data_ctr) && steps(ss.global_group_data_ctr, ss.group_data_ctr_boundary) <= EPOCH,
+                    "C12.group.invariant_preserved"
+                );
+            }
+        }
+        kani::assert(ids == (ss.next_sess_unique_id, ss.next_sess_id, ss.next_exch_id) && ss.sessions.is_empty(), "C12.group.reserve_frame");
+
+        kani::cover!(matches!(r, Ok((_, Some(_)))) && !uninit, "boundary reached");
+        kani::cover!(matches!(r, Ok((_, None))), "covered");
+        kani::cover!(matches!(r, Ok((_, Some(_)))) && uninit, "first use");
+        kani::cover!(r.is_err(), "no seed");
+        kani::cover!(matches!(r, Ok((v, _)) if v == RANGE), "value at the top of the range");
+        kani::cover!(matches!(r, Ok((v, Some(b))) if b < v), "boundary across the wrap");
+    }
+
+    /// Two reservations in a row (resume at any stored boundary first): strictly increasing on
+    /// the cycle, the first demands the store, both lie below the boundary returned by the first.
+    // TIER: quick
+    // KIND: complete
+    #[kani::proof]
+    fn c12_group_ctr_resume_then_reserve_twice() {
+        let d: u32 = kani::any();
+        kani::assume(d <= RANGE);
+        let mut ss = empty_sessions(kani::any(), kani::any());
+        ss.resume_global_group_data_ctr(d);
+        let mock = MockCrypto::new(true, false, 0);
+
+        let r1 = ss.reserve_global_group_data_ctr(&mock);
+        let r2 = ss.reserve_global_group_data_ctr(&mock);
+        kani::assert(r1.is_ok() && r2.is_ok(), "C12.group.resumed_counter_needs_no_seed");
+        if let (Ok((v1, p1)), Ok((v2, p2))) = (r1, r2) {
+            kani::assert(v1 == if d == 0 { 1 } else { d }, "C12.group.first_value_after_resume_is_stored_boundary");
+            kani::assert(p1.is_some(), "C12.group.first_reservation_after_resume_demands_store");
+            kani::assert(v2 == succ(v1), "C12.group.values_strictly_increasing");
+            kani::assert(p2.is_none(), "C12.group.second_reservation_is_covered");
+            if let Some(b) = p1 {
+                kani::assert(steps(v1, b) >= 1 && steps(v2, b) >= 1 && steps(v1, b) <= EPOCH, "C12.group.both_values_below_first_boundary");
+                kani::assert(steps(v1, b) > steps(v2, b), "C12.group.second_value_closer_to_boundary");
+            }
+        }
+        kani::cover!(d == RANGE, "resume at the top of the range");
+        kani::cover!(d == 0, "resume at stored 0");
+    }
+
+    /// Candidate D9, root cause at the `Sessions` API: `reserve` moves the in-memory boundary
+    /// when it HANDS OUT the demand, and nothing can report a failed store back. Contract needed
+    /// by the history lemma: as long as the demanded boundary has not been stored (durable
+    /// boundary still `d`), every further reservation keeps demanding the store, because its
+    /// value is not below anything durable.
+    // TIER: quick
+    // KIND: complete
+    #[kani::proof]
+    fn c12_d9_group_reserve_after_unstored_boundary() {
+        let d: u32 = kani::any();
+        kani::assume(in_cycle(d));
+        let mut ss = empty_sessions(0, 0);
+        ss.resume_global_group_data_ctr(d); // restart: in-memory boundary == durable boundary == d
+        let mock = MockCrypto::new(true, false, 0);
+
+        let r1 = ss.reserve_global_group_data_ctr(&mock);
+        kani::assert(matches!(r1, Ok((v, Some(_))) if v == d), "C12.d9.group.first_reservation_demands_store");
+        kani::cover!(r1.is_ok(), "first reservation");
+        // the caller's store of that boundary FAILS (exchange.rs:1236-1243 returns Err): durable is still `d`
+
+        let r2 = ss.reserve_global_group_data_ctr(&mock);
+        if let Ok((v2, p2)) = r2 {
+            kani::assert(v2 == succ(d), "C12.d9.group.second_value_is_successor");
+            // v2 is not below the durable boundary d, so it may only be used after a store
+            kani::assert(p2.is_some(), "C12.d9.group.unstored_boundary_is_demanded_again");
+        }
+    }
 }
